@@ -10,17 +10,18 @@ Open Scope R_scope.
 Notation fm := (fm (R:=R)). Notation arr := (arr (R:=R)). Notation op := (op (R:=R)).
 Notation iop := (iop (R:=R)). Notation ires := (ires (R:=R)).
 Variable gmres_amb : bool.
+Variable fwd_strict : bool.
 Variable lu_o : nat -> fm -> (nat -> nat) * fm * fm.
 Variable chol_o : nat -> fm -> fm.
 Variable tinv_o : nat -> fm -> bool -> fm.
 Variable iter_o : itag -> op -> fm.
-Notation inv := (inv gmres_amb lu_o chol_o).
+Notation inv := (inv gmres_amb fwd_strict lu_o chol_o).
 Notation base := (base lu_o chol_o).
 Notation to_op := (to_op tinv_o iter_o).
-Notation ok := (ok lu_o chol_o iter_o).
+Notation ok := (ok fwd_strict lu_o chol_o iter_o).
 Notation tinv_ok := (tinv_ok tinv_o).
-Notation solve := (solve gmres_amb lu_o chol_o tinv_o iter_o).
-Notation lsolve := (lsolve gmres_amb lu_o chol_o tinv_o iter_o).
+Notation solve := (solve gmres_amb fwd_strict lu_o chol_o tinv_o iter_o).
+Notation lsolve := (lsolve gmres_amb fwd_strict lu_o chol_o tinv_o iter_o).
 
 
 (* inv(A, alg) @ b and solve(A, b, alg) solve A x = b *)
@@ -28,7 +29,7 @@ Theorem solve_correct : tinv_ok -> forall al e a (X Y : arr), wf e = true -> is_
   nr X = fst (shape e) -> solve al e a X = Some Y ->
   nr Y = fst (shape e) /\ nc Y = nc X /\ feq (fst (shape e)) (nc X) (mmul (fst (shape e)) (den e) (dat Y)) (dat X).
 Proof. intros TO al e a X Y W Sq OK HX H. unfold C06_Inv.solve in H. destruct (inv al e a) as [r|] eqn:E; [|discriminate]. inversion H; subst Y; clear H.
-  destruct (inv_den gmres_amb lu_o chol_o tinv_o iter_o TO e al a r W Sq OK E) as (Wr & Sr & I).
+  destruct (inv_den gmres_amb fwd_strict lu_o chol_o tinv_o iter_o TO e al a r W Sq OK E) as (Wr & Sr & I).
   pose proof (sq_shape e Sq) as Sh. set (n := fst (shape e)) in *.
   destruct (proj1 (mm_den (to_op r) Wr) X) as (E1 & E2 & E3); [rewrite Sr, Sh; exact HX|].
   cbn [spec nr nc dat] in E1, E2, E3. rewrite Sr, Sh in E1, E3. cbn [fst snd] in E1, E3.
@@ -43,7 +44,7 @@ Theorem inv_left_product : tinv_ok -> forall al e a (X Y : arr), wf e = true -> 
   nc X = fst (shape e) -> lsolve al e a X = Some Y ->
   nr Y = nr X /\ nc Y = fst (shape e) /\ feq (nr X) (fst (shape e)) (mmul (fst (shape e)) (dat Y) (den e)) (dat X).
 Proof. intros TO al e a X Y W Sq OK HX H. unfold C06_Inv.lsolve in H. destruct (inv al e a) as [r|] eqn:E; [|discriminate]. inversion H; subst Y; clear H.
-  destruct (inv_den gmres_amb lu_o chol_o tinv_o iter_o TO e al a r W Sq OK E) as (Wr & Sr & I).
+  destruct (inv_den gmres_amb fwd_strict lu_o chol_o tinv_o iter_o TO e al a r W Sq OK E) as (Wr & Sr & I).
   pose proof (sq_shape e Sq) as Sh. set (n := fst (shape e)) in *.
   destruct (proj2 (mm_den (to_op r) Wr) X) as (E1 & E2 & E3); [rewrite Sr, Sh; exact HX|].
   cbn [rspec nr nc dat] in E1, E2, E3. rewrite Sr, Sh in E2, E3. cbn [fst snd] in E2, E3.
@@ -59,7 +60,7 @@ Theorem inv_transpose : tinv_ok -> forall al e a r sa, wf e = true -> is_sq e = 
   let t := transpose sa (to_op r) in
   wf t = true /\ shape t = shape e /\ inv2 (fst (shape e)) (den t) (fun i j => den e j i).
 Proof. intros TO al e a r sa W Sq OK E HS t.
-  destruct (inv_den gmres_amb lu_o chol_o tinv_o iter_o TO e al a r W Sq OK E) as (Wr & Sr & I).
+  destruct (inv_den gmres_amb fwd_strict lu_o chol_o tinv_o iter_o TO e al a r W Sq OK E) as (Wr & Sr & I).
   destruct (transpose_sound sa (to_op r) Wr HS) as (Wt & St & Dt). pose proof (sq_shape e Sq) as Sh.
   split; [exact Wt|]. split; [unfold t; rewrite St, Sr, Sh; reflexivity|].
   rewrite Sr, Sh in Dt. cbn [fst snd] in Dt. eapply inv2_ext; [apply feq_sym; exact Dt|apply feq_refl|]. apply inv2_transpose. exact I. Qed.
@@ -114,8 +115,8 @@ Definition ex_tree : op (R:=qi) :=
   Kron [Diag 2 (qof_vec [qic 2 1 0 1; qic 0 1 1 1]); Prod [Scal (qic 3 1 0 1) 2; Perm 2 (fun i => match i with 0 => 1 | _ => 0 end)%nat]].
 Lemma qi_nz (x : qi) : qi_eqb x qi0 = false -> x <> r0.
 Proof. intros H E. subst x. vm_compute in H. discriminate. Qed.
-Lemma ex_ok : forall lu_o chol_o iter_o, wf ex_tree = true /\ is_sq ex_tree = true /\ ok lu_o chol_o iter_o AAuto ex_tree adef.
-Proof. intros lu ch it. split; [vm_compute; reflexivity|]. split; [vm_compute; reflexivity|].
+Lemma ex_ok : forall fwd lu_o chol_o iter_o, wf ex_tree = true /\ is_sq ex_tree = true /\ ok fwd lu_o chol_o iter_o AAuto ex_tree adef.
+Proof. intros fwd lu ch it. split; [vm_compute; reflexivity|]. split; [vm_compute; reflexivity|].
   cbn [ok ex_tree akids adef map zipapp]. split; [vm_compute; reflexivity|].
   constructor.
   - intros i Hi. apply qi_nz. destruct i as [|[|i]]; [vm_compute; reflexivity|vm_compute; reflexivity|lia].
@@ -125,3 +126,13 @@ Proof. intros lu ch it. split; [vm_compute; reflexivity|]. split; [vm_compute; r
     split.
     + intros i Hi. destruct i as [|[|i]]; cbn; lia.
     + intros i j Hi Hj. destruct i as [|[|i]], j as [|[|j]]; cbn; intros; try lia; try discriminate. Qed.
+
+(* flag inv_psd_alg_forwarded_to_factors: on the pinned rules (fwd_strict = true) inv(PSD(Kronecker(PSD(D), D)), Cholesky()) raises the
+   factor's assertion although the operator is declared PSD; the repaired rules (fwd_strict = false) return an operator *)
+Definition fw_tree : op (R:=qi) := Kron [Dense (qof_list_mn 1 1 [[qic 2 1 0 1]]); Dense (qof_list_mn 1 1 [[qic 3 1 0 1]])].
+Definition fw_ann : atree := AN true false true None [AN true false true None []; AN false false false None []].
+Lemma fwd_pinned_refuted : forall g lu_o chol_o,
+  inv g true lu_o chol_o AChol fw_tree fw_ann = IErr EAssert /\ (exists r, inv g false lu_o chol_o AChol fw_tree fw_ann = IOk r).
+Proof. intros g lu ch. split; [reflexivity|]. cbn [C06_Inv.inv fw_tree fw_ann akids apsd map zipapp child_alg andb negb amb].
+  unfold C06_Inv.base, base_alg. cbn [apsd auto_choice]. unfold is_sq, size_small. cbn [shape nr nc qof_list_mn fst snd Nat.eqb].
+  destruct (lu 1%nat _) as [[p L] U]. cbn [seqres lift]. eexists. reflexivity. Qed.
